@@ -178,6 +178,7 @@ __attribute__((used)) static void vf_entry(unsigned long *sp)
     int const argc = (int)sp[0];
     char **argv = (char **)(sp + 1);
     u64 total, ran = 0;
+    u32 case_timeout = 0;
     vf.seed = 1; vf.nworkers = 1; vf.only = -1; vf.config = "ilp32"; vf.maxcases = ~0ULL; vf.jfd = -1;
     for (int i = 1; i < argc; ++i)
     {
@@ -191,7 +192,8 @@ __attribute__((used)) static void vf_entry(unsigned long *sp)
         else if (!strcmp(a, "--maxcases")) { vf.maxcases = vf_atou(v); ++i; }
         else if (!strcmp(a, "--config")) { vf.config = v; ++i; }
         else if (!strcmp(a, "--journal")) { vf.journal = v; ++i; }
-        else if (!strcmp(a, "--dfile") || !strcmp(a, "--case-timeout") || !strcmp(a, "--spread")) { ++i; }
+        else if (!strcmp(a, "--case-timeout")) { case_timeout = (u32)vf_atou(v); ++i; }
+        else if (!strcmp(a, "--dfile") || !strcmp(a, "--spread")) { ++i; }
         else if (!strcmp(a, "--explain")) { vf.explain = 1; }
         else if (!strcmp(a, "--hashed-shares")) {}
         else { vf_write(2, "vf32: unknown option\n", 21); vf_exit(2); }
@@ -208,7 +210,11 @@ __attribute__((used)) static void vf_entry(unsigned long *sp)
         vf.case_no = c;
         vf.case_viol = 0;
         vf_journal_write(c, ran);
+        /* watchdog: alarm(2) - no handler is installed, SIGALRM ends the process and the driver reads the case number from the journal (a library routine that
+           never returns on this data model, e.g. a binary gcd counting trailing zeros with a 32-bit builtin) */
+        vf_sys(27, (long)(case_timeout ? (case_timeout < 60 ? case_timeout : 60) : 60), 0, 0);
         vf_case(c, &r);
+        vf_sys(27, 0, 0, 0);
         ++ran;
     }
     vf_journal_write(~0ULL, ran);
